@@ -17,6 +17,9 @@ pub use crate::half_connection::HalfConnection;
 pub use crate::half_connection::Config as HalfConnectionConfig;
 pub use crate::half_connection::FrameSink;
 pub use crate::half_connection::PacketSink;
+pub use crate::half_connection::SendRateComp;
+pub use crate::half_connection::FeedbackData;
+pub use crate::half_connection::HcProbe;
 
 pub use crate::frame::serial::Serialize;
 pub use crate::frame::{
@@ -24,3 +27,6 @@ pub use crate::frame::{
     HandshakeAckFrame, HandshakeErrorFrame, HandshakeErrorType, HandshakeSynAckFrame,
     HandshakeSynFrame, SyncFrame,
 };
+
+pub use crate::client::ClientProbe;
+pub use crate::server::{ServerProbe, RemoteClientProbe};
